@@ -114,6 +114,22 @@ def main():
         head, _ = swap_ok_filter(head)
         open(p, "w").write(head + tail)
 
+    # ProguardRecord gets an explicit tag (layout only, no change of meaning) in the
+    # verification build. Measured with Kani 0.68/CBMC 6.11: with the default niche
+    # layout the discriminant of a record lives in the tag of the nested
+    # Option<usize> of its line mapping and is read through a cast that CBMC's symex
+    # never constant-folds, so the builders explore every `match record` arm for
+    # every record of a concrete stream; with `repr(C, u8)` the tag is a plain field.
+    # (`repr(u8)` alone made the fields of *every* variant non-foldable.)
+    p = os.path.join(root, "src/mapping.rs")
+    text = open(p).read()
+    m = re.search(r"^pub enum ProguardRecord<", text, re.M)
+    if m:
+        text = text[:m.start()] + "#[cfg_attr(kani, repr(C, u8))]\n" + text[m.start():]
+        open(p, "w").write(text)
+    else:
+        print("INSTRUMENT-NOTE: enum ProguardRecord not found; builder harnesses will be slow")
+
     # any other use of std containers in non-test code is reported
     other = []
     for dirpath, _, files in os.walk(os.path.join(root, "src")):
